@@ -39,6 +39,7 @@ type poolScn struct {
 	cidx    int
 	nclose  int
 	late    bool
+	skip    bool // Low-Latency: the playlist advertises CAN-SKIP-UNTIL (the client then asks for _HLS_skip=YES)
 }
 
 func poolParse(line string) (*poolScn, bool) {
@@ -60,7 +61,7 @@ func poolParse(line string) (*poolScn, bool) {
 		switch kv[0] {
 		case "fmt":
 			s.format = kv[1]
-			ok = kv[1] == "fmp4" || kv[1] == "ts"
+			ok = kv[1] == "fmp4" || kv[1] == "ts" || kv[1] == "ll"
 		case "layout":
 			s.layout = kv[1]
 			ok = kv[1] == "single" || kv[1] == "rend"
@@ -74,7 +75,7 @@ func poolParse(line string) (*poolScn, bool) {
 			s.fidx, ok = num()
 		case "close":
 			s.closeAt = kv[1]
-			ok = kv[1] == "none" || kv[1] == "start" || kv[1] == "req" || kv[1] == "ontracks" || kv[1] == "pacing" || kv[1] == "eos"
+			ok = kv[1] == "none" || kv[1] == "start" || kv[1] == "req" || kv[1] == "held" || kv[1] == "ontracks" || kv[1] == "pacing" || kv[1] == "eos"
 		case "cidx":
 			s.cidx, ok = num()
 		case "n":
@@ -82,6 +83,9 @@ func poolParse(line string) (*poolScn, bool) {
 			ok = ok && s.nclose >= 1 && s.nclose <= 3
 		case "late":
 			s.late = kv[1] == "1"
+			ok = kv[1] == "0" || kv[1] == "1"
+		case "skip":
+			s.skip = kv[1] == "1"
 			ok = kv[1] == "0" || kv[1] == "1"
 		default:
 			ok = false
@@ -94,14 +98,30 @@ func poolParse(line string) (*poolScn, bool) {
 }
 
 func (s *poolScn) line() string {
-	return fmt.Sprintf("cfg fmt=%s layout=%s nseg=%d fault=%s fidx=%d close=%s cidx=%d n=%d late=%d",
+	l := fmt.Sprintf("cfg fmt=%s layout=%s nseg=%d fault=%s fidx=%d close=%s cidx=%d n=%d late=%d",
 		s.format, s.layout, s.nseg, s.fault, s.fidx, s.closeAt, s.cidx, s.nclose, poolB2i(s.late))
+	if s.format == "ll" {
+		l += fmt.Sprintf(" skip=%d", poolB2i(s.skip))
+	}
+	return l
 }
 
 // nreq is the number of requests the client makes on a fault-free run to the end of the stream
 // (read off the property's anchors: one primary playlist; per stream its playlist unless it is the
 // primary one, the init segment of fMP4, nseg segments and a playlist reload between two segments).
+//
+// Low-Latency (fmt=ll, nseg = number of preload hints the origin will ever advertise): the stream downloader
+// never fetches a segment; per stream it fetches its playlist (unless primary), the init segment, and then
+// alternates "preload hint" / "playlist reload" — nseg times each; the last reload no longer carries a hint and
+// ends the stream with the fatal error "preload hint disappeared".
 func (s *poolScn) nreq() int {
+	if s.format == "ll" {
+		per := 1 + 2*s.nseg
+		if s.layout == "single" {
+			return 1 + per
+		}
+		return 1 + 2*(1+per)
+	}
 	per := 2*s.nseg - 1
 	if s.format == "fmp4" {
 		per++
@@ -155,7 +175,11 @@ func poolAU(first bool, id byte) [][]byte {
 func (s *poolScn) files(st int) map[string][]byte {
 	out := map[string][]byte{}
 	video := st == 0
-	if s.format == "fmp4" {
+	if s.format != "ts" {
+		name := "seg"
+		if s.format == "ll" {
+			name = "part" // the k-th preload hint
+		}
 		var codec fmp4.Codec = &fmp4.CodecH264{SPS: poolSPS, PPS: poolPPS}
 		scale := int64(90000)
 		if !video {
@@ -185,7 +209,7 @@ func (s *poolScn) files(st int) map[string][]byte {
 				smp = append(smp, &fmp4.PartSample{Duration: uint32(dur), Payload: pl, IsNonSyncSample: video && i != 0})
 			}
 			parts := fmp4.Parts{{SequenceNumber: uint32(k + 1), Tracks: []*fmp4.PartTrack{{ID: 1, BaseTime: uint64(1000 + tm[0]), Samples: smp}}}}
-			out[fmt.Sprintf("/s%d_seg%d.mp4", st, k)] = poolMP4(&parts)
+			out[fmt.Sprintf("/s%d_%s%d.mp4", st, name, k)] = poolMP4(&parts)
 		}
 		return out
 	}
@@ -233,6 +257,41 @@ func (s *poolScn) mediaPlaylist(st int) string {
 	return b.String()
 }
 
+// llPlaylist is the Low-Latency media playlist of stream st as served the count-th time (count = 1 for the first
+// download): two complete segments (never fetched by the client's Low-Latency loop), the parts handed out so far and
+// a preload hint for part count-1 — until nseg hints have been advertised; after that the stream has ended (no hint,
+// ENDLIST). With _HLS_skip=YES (sent by the client when CAN-SKIP-UNTIL is advertised) the answer is a delta update.
+func (s *poolScn) llPlaylist(st int, count int, skipReq bool) string {
+	var b strings.Builder
+	b.WriteString("#EXTM3U\n#EXT-X-VERSION:9\n#EXT-X-INDEPENDENT-SEGMENTS\n#EXT-X-TARGETDURATION:4\n")
+	b.WriteString("#EXT-X-SERVER-CONTROL:CAN-BLOCK-RELOAD=YES,PART-HOLD-BACK=3.00000")
+	if s.skip {
+		b.WriteString(",CAN-SKIP-UNTIL=24.00000")
+	}
+	b.WriteString("\n#EXT-X-PART-INF:PART-TARGET=1.00000\n#EXT-X-MEDIA-SEQUENCE:10\n")
+	fmt.Fprintf(&b, "#EXT-X-MAP:URI=\"s%d_init.mp4\"\n", st)
+	if skipReq && s.skip {
+		b.WriteString("#EXT-X-SKIP:SKIPPED-SEGMENTS=1\n")
+	} else {
+		fmt.Fprintf(&b, "#EXTINF:4.00000,\ns%d_old0.mp4\n", st)
+	}
+	fmt.Fprintf(&b, "#EXTINF:4.00000,\ns%d_old1.mp4\n", st)
+	hint := count - 1
+	for k := 0; k < hint && k < s.nseg; k++ {
+		ind := ""
+		if k == 0 {
+			ind = ",INDEPENDENT=YES"
+		}
+		fmt.Fprintf(&b, "#EXT-X-PART:DURATION=1.00000,URI=\"s%d_part%d.mp4\"%s\n", st, k, ind)
+	}
+	if hint < s.nseg {
+		fmt.Fprintf(&b, "#EXT-X-PRELOAD-HINT:TYPE=PART,URI=\"s%d_part%d.mp4\"\n", st, hint)
+	} else {
+		fmt.Fprintf(&b, "#EXTINF:%d.00000,\ns%d_last.mp4\n#EXT-X-ENDLIST\n", s.nseg, st)
+	}
+	return b.String()
+}
+
 // ---------------------------------------------------------------------------------------------
 // scripted server
 
@@ -246,6 +305,9 @@ type poolServer struct {
 	playlists map[string]string
 	closeFn   func()        // calls Client.Close n times
 	stalled   chan struct{} // closed when the stalling body has been handed to the client
+	held      chan struct{} // closed when the request of `close=held` has arrived and is being held
+	counts    map[string]int
+	frozen    bool // Low-Latency: the origin produces nothing more (every later request is held)
 	log       []string
 }
 
@@ -264,7 +326,8 @@ func (b poolStallBody) Read([]byte) (int, error) {
 func (b poolStallBody) Close() error { return nil }
 
 func newPoolServer(s *poolScn) *poolServer {
-	srv := &poolServer{scn: s, files: map[string][]byte{}, playlists: map[string]string{}, stalled: make(chan struct{})}
+	srv := &poolServer{scn: s, files: map[string][]byte{}, playlists: map[string]string{}, stalled: make(chan struct{}),
+		held: make(chan struct{}), counts: map[string]int{}}
 	nst := 1
 	if s.layout == "rend" {
 		nst = 2
@@ -292,7 +355,15 @@ func (srv *poolServer) RoundTrip(req *http.Request) (*http.Response, error) {
 	srv.mu.Lock()
 	idx := srv.n
 	srv.n++
-	srv.log = append(srv.log, req.URL.Path)
+	srv.log = append(srv.log, req.URL.RequestURI())
+	srv.counts[req.URL.Path]++
+	count := srv.counts[req.URL.Path]
+	frozen := srv.frozen
+	if s := srv.scn; s.format == "ll" && ((s.closeAt == "held" && idx == s.cidx) || (s.fault == "stall" && idx == s.fidx)) {
+		// with two independent Low-Latency streams the other one would otherwise run to its end
+		// ("preload hint disappeared") while this request is held / stalls
+		srv.frozen = true
+	}
 	srv.mu.Unlock()
 	s := srv.scn
 	mk := func(code int, body io.ReadCloser, n int64) *http.Response {
@@ -313,6 +384,20 @@ func (srv *poolServer) RoundTrip(req *http.Request) (*http.Response, error) {
 		}
 		return hold()
 	}
+	if s.format == "ll" && (s.closeAt == "ontracks" || s.closeAt == "pacing" || s.fault == "ontracks") && count >= 2 && strings.HasSuffix(req.URL.Path, ".m3u8") {
+		// a Low-Latency origin that has produced one part so far: the reload blocks (otherwise the stream would
+		// run to its end while the test is still waiting for OnTracks / for the pacing sleep)
+		return hold()
+	}
+	if frozen {
+		return hold()
+	}
+	if s.closeAt == "held" && idx == s.cidx {
+		// what a Low-Latency origin does with a preload hint / a blocking reload whose data does not exist yet: it
+		// keeps the request open. Close is called from the user's goroutine while the client is parked in it.
+		close(srv.held)
+		return hold()
+	}
 	if idx == s.fidx {
 		switch s.fault {
 		case "status":
@@ -325,6 +410,14 @@ func (srv *poolServer) RoundTrip(req *http.Request) (*http.Response, error) {
 			close(srv.stalled)
 			return mk(200, poolStallBody{req.Context()}, -1), nil
 		}
+	}
+	if s.format == "ll" && strings.HasSuffix(req.URL.Path, ".m3u8") && (s.layout == "single" || req.URL.Path != "/index.m3u8") {
+		st := 0
+		if req.URL.Path == "/s1.m3u8" {
+			st = 1
+		}
+		pl := s.llPlaylist(st, count, req.URL.Query().Get("_HLS_skip") == "YES")
+		return mk(200, io.NopCloser(strings.NewReader(pl)), int64(len(pl))), nil
 	}
 	if pl, ok := srv.playlists[req.URL.Path]; ok {
 		return mk(200, io.NopCloser(strings.NewReader(pl)), int64(len(pl))), nil
